@@ -591,6 +591,21 @@ func (in *interp) callBuiltin(caller *frame, callpos token.Pos, fn *ssa.Builtin,
 		case []value:
 			src = s
 		}
+		if in.race != nil {
+			// copy reads the source elements and writes the destination elements
+			m := len(dst)
+			if len(src) < m {
+				m = len(src)
+			}
+			if _, isSlice := args[1].([]value); isSlice {
+				for i := 0; i < m; i++ {
+					in.race.read(in.sch.cur, &src[i], false)
+				}
+			}
+			for i := 0; i < m; i++ {
+				in.race.write(in.sch.cur, &dst[i], false)
+			}
+		}
 		n := copy(dst, src)
 		for i := 0; i < n; i++ {
 			dst[i] = copyVal(dst[i])
